@@ -381,3 +381,5 @@ v("C01", J21, "                        while buf['next_packet_to_send'] < buf['n
 v("C16", DM, "        if length < 6:", "        if length <= 6:", "break", "DM1 with one code rejected")
 v("C16", DM, "        if length < 6:", "        if length <= 5:", "keep", "same boundary")
 v("C06,C12", ECU, "                    if next_wakeup > event['deadline']:\n                        next_wakeup = event['deadline']\n                else:", "                    if next_wakeup >= event['deadline']:\n                        next_wakeup = event['deadline']\n                else:", "keep", "minimum with equality")
+v("C09", ECU, "        if max_cmdt_packets > 0xFF:", "        if max_cmdt_packets >= 0xFF:", "break", "constructor rejects the legal setting 255 (boundary sweep)")
+v("C09", ECU, "        if max_cmdt_packets > 0xFF:", "        if not max_cmdt_packets <= 255:", "keep", "respelled")
